@@ -3,10 +3,10 @@ package main
 // Exec: VC generation context for one function under contract.
 
 import (
-	"os"
 	"fmt"
 	"go/token"
 	"go/types"
+	"os"
 	"sort"
 	"strings"
 
@@ -26,12 +26,12 @@ type Obligation struct {
 	Expect string // "unsat" (normal obligation) or "sat" (vacuity guard)
 
 	// results
-	Status  string // discharged | refuted | undecided
-	Solver  string
-	Seconds float64
+	Status   string // discharged | refuted | undecided
+	Solver   string
+	Seconds  float64
 	Seconds0 float64
-	Model   string
-	Query   string
+	Model    string
+	Query    string
 }
 
 type Exec struct {
@@ -50,26 +50,26 @@ type Exec struct {
 	subTags  map[string]int
 	subSeen  map[string]bool
 
-	assumed     map[string]bool // assumptions used (for evidence)
+	assumed      map[string]bool // assumptions used (for evidence)
 	abstractions map[string]bool
-	errGlobals  []string
-	immGlobals  map[string]bool
-	concTypes   []types.Type
-	ifaceTypes  []types.Type
-	boxed       map[string]bool
+	errGlobals   []string
+	immGlobals   map[string]bool
+	concTypes    []types.Type
+	ifaceTypes   []types.Type
+	boxed        map[string]bool
 
-	fc      *FuncContract
-	fnKey   string
-	pkg     *types.Package
-	nameCnt map[string]int
-	frameN  int
-	pendingTag0 []string
-	inlineDefs  bool
-	rangeInst   map[string]bool
-	allocSyms   map[string]bool
-	pureInst    map[string]bool
-	defs        map[string]string
-	escaped     map[string]*LV
+	fc            *FuncContract
+	fnKey         string
+	pkg           *types.Package
+	nameCnt       map[string]int
+	frameN        int
+	pendingTag0   []string
+	inlineDefs    bool
+	rangeInst     map[string]bool
+	allocSyms     map[string]bool
+	pureInst      map[string]bool
+	defs          map[string]string
+	escaped       map[string]*LV
 	specFuncsUsed []string
 }
 
